@@ -1,7 +1,7 @@
 (* C17 -- Timing, path and fan-out analyses equal their graph-theoretic
    definitions.  Only statements + `exact`; models in Analysis/{Timing,Paths,
    Fanout}.v, specification in Analysis/PathSpec.v, proofs in Analysis/*Proofs.v. *)
-From Coq Require Import QArith Floats.
+From Coq Require Import QArith PrimFloat SpecFloat FloatOps Uint63.
 From PyRTL Require Import Analysis.PathSpec Analysis.TimingProofs Analysis.PathsProofs
   Analysis.FanoutProofs Analysis.FormulaProofs Analysis.CritProofs Analysis.PathSpecOrd
   Analysis.TimingOrdProofs Gen.TimingFormula.
